@@ -86,7 +86,7 @@ def gen_plan(prop, seed, index, tier="quick"):
             "poll": r.choice(["getmany", "getmany", "getone"]),
             "poll_timeout_ms": r.choice([20, 100, 300]),
             "commit_every": 0 if auto else r.choice([0, 1, 3, 8]),
-            "cb_delay": r.choice([0.0, 0.0, 0.01, 0.2]) if prop == "C05" else 0.0,
+            "cb_delay": r.choice([0.0, 0.0, 0.01, 0.2]) if prop in ("C05", "C06") else 0.0,
             "static": (prop in ("C06", "C05") and join_max >= 5 and r.random() < 0.15),
             # stops polling for longer than max_poll_interval_ms once (the member leaves the
             # group by itself, others take over, then the application comes back)
@@ -99,6 +99,8 @@ def gen_plan(prop, seed, index, tier="quick"):
     if r.random() < 0.75:
         kinds = ["kill", "stop", "restart", "join", "session_expire", "coordinator_move",
                  "coordinator_loading", "broker_down"]
+        if nbrokers >= 2:
+            kinds.append("broker_failover")
         if prop in ("C05", "C06"):
             kinds += ["partitions_grow", "topic_create", "resubscribe"]
         if prop in ("C04", "C13", "C05"):
@@ -128,6 +130,11 @@ def gen_plan(prop, seed, index, tier="quick"):
             elif k == "broker_down":
                 env.append({"at": at, "do": "broker_down", "node": r.randint(1, nbrokers),
                             "d": r.choice([0.2, 1.0])})
+            elif k == "broker_failover":
+                # a broker dies (the coordinator's, or any): its roles move to another for good
+                env.append({"at": at, "do": "broker_failover",
+                            "node": r.choice(["coordinator", "coordinator", r.randint(1, nbrokers)]),
+                            "d": r.choice([0.5, 3.0, 1e6])})
             elif k in ("leader_unavailable", "leader_move"):
                 t = r.choice(sorted(topics))
                 e = {"at": at if r.random() < 0.5 else round(r.uniform(0.0, 0.3), 3), "do": k, "topic": t,
@@ -221,6 +228,37 @@ def gen_plan(prop, seed, index, tier="quick"):
                 committed[lg["tp"]] = lg["n"] + r.randint(1, 30)  # beyond the log end
         base_kw["auto_offset_reset"] = r.choice(["earliest", "latest", "none"])
         base_kw["isolation_level"] = r.choice(["read_uncommitted", "read_committed"])
+    if prop == "C06" and index % 3 == 1:
+        # focus family: membership changes that force later generations, and exactly one
+        # group-protocol request of a later round answered with an error, lost, or cut off
+        fr = scenario.rng_for(seed, prop, index, "focus")
+        env = [e for e in env if e["do"] in ("join", "stop", "restart", "resubscribe",
+                                              "partitions_grow", "session_expire")][:2]
+        if not env:
+            at = round(fr.uniform(0.4, 2.0), 3)
+            if fr.random() < 0.5 and len(members) < 5:
+                env = [{"at": at, "do": "join",
+                        "spec": dict(members[0], id=f"m{len(members)}", join_at=at, static=False)}]
+            else:
+                env = [{"at": at, "do": fr.choice(["restart", "session_expire"]),
+                        "member": f"m{fr.randrange(len(members))}"}]
+        api = fr.choice(["SyncGroup", "SyncGroup", "JoinGroup", "JoinGroup", "Heartbeat",
+                         "FindCoordinator", "OffsetCommit"])
+        do = fr.choice([{"reply_error": fr.choice(ERR[api])}, {"reply_error": fr.choice(ERR[api])},
+                        "lose_response", {"drop_after_apply": "reset"}, {"drop_before_apply": "eof"}])
+        faults = [{"on": {"request": api, "nth": fr.randint(2, 10)}, "do": do}]
+        if nbrokers >= 2 and fr.random() < 0.35:
+            # instead: the coordinator's broker dies around a membership change
+            faults = []
+            env.append({"at": round(env[0]["at"] + fr.choice([0.0, 0.02, 0.1, 0.3, 1.0]), 3),
+                        "do": "broker_failover", "node": "coordinator", "d": fr.choice([3.0, 1e6])})
+            env.sort(key=lambda e: e["at"])
+        if fr.random() < 0.6:
+            base_kw["enable_auto_commit"] = False
+            for m in members:
+                m["commit_every"] = fr.choice([0, 0, 3])
+        if base_kw["metadata_max_age_ms"] > 2000:
+            base_kw["metadata_max_age_ms"] = 2000
     return {"format": 1, "prop": prop, "engine": "group", "seed": scenario.subseed(seed, prop, index),
             "max_iters": 1_500_000,
             "index": index, "cluster": cluster, "kw": base_kw, "members": members, "env": env,
@@ -608,6 +646,9 @@ def execute(plan):
                 world.faults._apply_env("coordinator_loading", [node, e["d"]])
             elif do == "broker_down":
                 world.faults._apply_env("broker_down", [e["node"], e["d"]])
+            elif do == "broker_failover":
+                node = cl.coordinator_for(0, GROUP) if e["node"] == "coordinator" else e["node"]
+                world.faults._apply_env("broker_failover", [node, e["d"]])
             elif do == "leader_unavailable":
                 world.faults._apply_env("leader_unavailable", [e["topic"], e["p"], e["d"]])
             elif do == "leader_move":
@@ -1019,6 +1060,9 @@ def oracle_c06(plan, world, cl, ctx):
     fault_seqs = sorted([e[0] for e in world.log.events if e[2] in ("fault", "kill", "coordinator_move",
                                                                       "s_close", "partitions_grow",
                                                                       "topic_create", "leader_move")])
+    # an injected error reply acts when it reaches the member, one network trip after it fired
+    fault_times = sorted(e[1] for e in world.log.events if e[2] == "fault")
+    trip = 4 * plan["cluster"]["lat"][1] + plan["cluster"].get("service_time", 0.0) + 0.01
     by_client = {}
     for ent in groups.ledger:
         if ent.get("client") is not None and ent["kind"] in ("join_req", "join_resp", "sync_req"):
@@ -1055,6 +1099,7 @@ def oracle_c06(plan, world, cl, ctx):
             # disturb for as long as they are in effect, not only when they fire
             slack = kw["request_timeout_ms"] / 1000
             disturbed = any(lo <= s <= hi for s in fault_seqs) or \
+                any(t_lo - trip <= tf <= nxt["t"] for tf in fault_times) or \
                 any(lo_sub <= s <= hi for s in m.sub_changes) or \
                 any(lo - 5 <= e[0] <= hi for e in ctx["env_log"]) or \
                 any(ts - 0.001 <= nxt["t"] and t_lo <= te + slack
